@@ -89,6 +89,11 @@ static void classify(const CaseSpec &cs, const EncodeResult &er) {
     if (ao.pred != kPredUnset) count("forced_prediction_" + std::to_string(ao.pred));
     if (a.ncomp > 4) count("att_components_5_8");
   }
+  {
+    std::set<std::string> ev;
+    for (auto &e : er.events) ev.insert("event:" + e.first + "=" + std::to_string(e.second));
+    for (auto &e : ev) count(e);
+  }
   if (cs.o.builtin_compression == 0) count("builtin_compression_off");
   if (cs.o.split_on_seams == 1) count("split_on_seams_on");
   if (cs.o.compress_connectivity == 1 && er.geometry_type == 1 && er.method == 0) count("sequential_compressed_connectivity");
@@ -659,7 +664,48 @@ static bool gen_c12(C12Spec *sp, std::vector<std::string> *classes) {
   return true;
 }
 
+// Writes small valid streams, a few per distinct encoder code-path class, to $VERIF_CORPUS_OUT (fuzz / enumeration
+// seeds; the frozen corpus of C05 was produced once with the same mode).
+static std::string run_gencorpus(const CaseSpec &cs) {
+  static std::map<std::string, int> per_class;
+  static const int per_class_limit = atoi(env("VERIF_CORPUS_PER_CLASS", "2"));
+  static const size_t max_bytes = static_cast<size_t>(atoi(env("VERIF_CORPUS_MAX_BYTES", "1500")));
+  std::unique_ptr<draco::PointCloud> pc = build_geometry(cs.g);
+  EncodeResult er = encode_case(cs, *pc);
+  if (!er.status.ok() || er.bytes.size() > max_bytes) return "";
+  DecodeResult dr = decode_bytes(er.bytes);
+  if (!dr.status.ok()) return "";
+  std::string key = std::to_string(er.geometry_type) + "/" + std::to_string(er.method) + "/";
+  {
+    std::set<std::string> u;
+    for (auto &e : er.events)
+      if (e.first != "sequential_attribute_data_type" && e.first != "raw_symbol_bit_length") u.insert(e.first + "=" + std::to_string(e.second));
+    for (auto &x : u) key += x + ";";
+    std::set<std::string> kinds;
+    for (size_t ai = 0; ai < cs.g.atts.size(); ++ai) {
+      const AttSpec &a = cs.g.atts[ai];
+      const bool q = is_lossy(cs, static_cast<int>(ai));
+      kinds.insert(q ? (a.type == GeometryAttribute::NORMAL ? "octa" : "quant") : (a.dtype == draco::DT_FLOAT32 || a.dtype > draco::DT_UINT32 ? "raw" : "int"));
+    }
+    for (auto &x : kinds) key += x + ",";
+    const uint16_t flags = er.bytes.size() > 10 ? static_cast<uint8_t>(er.bytes[10]) : 0;
+    key += (flags & 0x80) ? "meta" : "";
+  }
+  if (per_class[key]++ >= per_class_limit) return "";
+  char name[512];
+  snprintf(name, sizeof name, "%s/s%016llx.drc", env("VERIF_CORPUS_OUT", "/tmp"), (unsigned long long)hash_tokens(to_tokens(cs)));
+  FILE *f = fopen(name, "wb");
+  if (f) {
+    fwrite(er.bytes.data(), 1, er.bytes.size(), f);
+    fclose(f);
+    count("corpus_streams_written");
+    nontrivial(hash_tokens(to_tokens(cs)));
+  }
+  return "";
+}
+
 static std::string run_mode_inner(const std::string &mode, const CaseSpec &cs, const std::vector<std::string> &classes) {
+  if (mode == "gencorpus") return run_gencorpus(cs);
   if (mode == "c10") return run_c10(cs, classes);
   if (mode == "c04") return run_c04(cs, classes);
   if (mode == "c01") return run_roundtrip(cs, 0, classes);
@@ -697,6 +743,7 @@ static GenCfg cfg_for(const std::string &mode) {
     c.mesh_pct = 60;
   }
   if (mode == "c04") c.max_extra_atts = 3;
+  if (mode == "gencorpus") c.allow_large = false;
   return c;
 }
 
